@@ -986,26 +986,49 @@ def r_sibkeys(ctx) -> RuleResult:
     res.inst("V2000 vs V3000", f"bond record keys {sorted(kb2)} / {sorted(kb3)}", "ok" if ok else "fail")
     if not ok:
         res.fail(Finding("R-SIBKEYS", a3[0].module.rel, a3[0].qualname, f"bond keys {sorted(kb2)} vs {sorted(kb3)}", "bond records of the two readers differ"))
-    # D/T helper before the element table
+    # D/T helper before the element table: the key of every look-up in the element table (in the reader or in a helper it
+    # calls) is, on some path, the constant 'H' that the shared helper puts in place of D and T
+    from .tokens import _alts, _show, _sym_exec
+    etab = ctx.repo.try_const("tucan.element_attributes", "ELEMENT_ATTRS", None)
+
+    def is_table(f, e) -> bool:
+        if isinstance(e, ast.Name):
+            r = ctx.repo.resolve(f.module, e.id)
+            if r and r[0] == "const":
+                v = ctx.repo.try_const(r[1], r[2], None)
+                return isinstance(v, dict) and v is etab or (isinstance(v, dict) and isinstance(etab, dict) and v == etab)
+        return False
     for ver, a in (("V2000", a2), ("V3000", a3)):
-        clo = [ctx.cg.funcs[q] for q in ctx.cg.closure([a[0].fq])]
+        clo = [a[0]] + [ctx.cg.funcs[q] for q in ctx.cg.closure([a[0].fq])]
         lookups = []
         for f in clo:
             for x in own_walk(f.node):
-                if isinstance(x, ast.Subscript) and isinstance(x.value, ast.Name) and x.value.id == "ELEMENT_ATTRS":
-                    lookups.append((f, x))
+                if isinstance(x, ast.Subscript) and is_table(f, x.value):
+                    lookups.append((f, x, x.slice))
+                elif isinstance(x, ast.Call) and isinstance(x.func, ast.Attribute) and x.func.attr == "get" and x.args and is_table(f, x.func.value):
+                    lookups.append((f, x, x.args[0]))
         if not lookups:
             raise AnalysisError(f"R-SIBKEYS: {ver} reader has no element-table lookup")
-        for f, x in lookups:
-            key = x.slice
-            ok = False
-            if isinstance(key, ast.Name):
-                for d in assigned_names(f.node).get(key.id, []):
-                    if isinstance(d, ast.Assign) and isinstance(d.value, ast.Call):
-                        cs = ctx.cg.resolve_call(f, d.value, ctx.cg.local_types(f), set(params_of(f.node)))
-                        if cs.kind == "tucan" and cs.target.name == "detect_hydrogen_isotopes":
-                            ok = True
-            res.inst(f.fq, f"{ver}: {short(x)} keyed by the D/T-normalised symbol", "ok" if ok else "fail")
+        for f, x, key in lookups:
+            env, _ = _sym_exec(ctx, f, {p_: ("name", p_) for p_ in params_of(f.node)})
+            # the key as it stands where the look-up happens: re-read the function up to that statement
+            kt = None
+            fn2 = f.node
+            stmts = []
+            for st in fn2.body:
+                stmts.append(st)
+                if any(y is x for y in ast.walk(st)):
+                    break
+            import copy
+            sub = copy.copy(fn2)
+            sub.body = stmts[:-1] if len(stmts) > 1 else []
+            from ..model import FuncInfo as _FI
+            f_sub = copy.copy(f)
+            f_sub.node = sub
+            env2, _ = _sym_exec(ctx, f_sub, {p_: ("name", p_) for p_ in params_of(fn2)})
+            kt = env2["__term__"](key)
+            ok = any(alt == ("const", "H") for alt in _alts(kt))
+            res.inst(f.fq, f"{ver}: {short(x)} keyed by the D/T-normalised symbol", "ok" if ok else "fail", detail=_show(kt)[:80])
             if not ok:
                 res.fail(Finding("R-SIBKEYS", f.module.rel, f.qualname, norm(x), f"{ver}: element table is consulted with a symbol that did not pass through detect_hydrogen_isotopes (D / T raise KeyError or are misread)", line=x.lineno))
     # dispatch totality: a version string that is neither V2000 nor V3000 ends in a raise without any reader being called
@@ -1769,8 +1792,94 @@ def listener_index_fields(ctx, lis) -> dict:
                     and isinstance(n.targets[0].value.value, ast.Name) and n.targets[0].value.value.id == "self" and parsed_number(n.targets[0].slice, m):
                 fields.setdefault(n.targets[0].value.attr, "keys")
     if "pairs" not in fields.values() or "keys" not in fields.values():
+        # by what they hold (origin typing): a sequence of pairs of indices / a map keyed by an index
+        from ..origin import Map, OriginTyper, S, Seq, Tup, tags
+        ot = OriginTyper(ctx.repo, lis, [])
+        for F, t in ot.fields.items():
+            if isinstance(t, Seq) and isinstance(t.elem, Tup) and len(t.elem.items) == 2 and all(tags(x) - {"const"} == {"idx"} for x in t.elem.items):
+                fields.setdefault(F, "pairs")
+            elif isinstance(t, Map) and tags(t.k) - {"const"} == {"idx"}:
+                fields.setdefault(F, "keys")
+    if "pairs" not in fields.values() or "keys" not in fields.values():
         raise AnalysisError(f"cannot find the listener fields that hold parsed bond endpoints and attribute indices (found {fields})")
     return fields
+
+
+def _read_time_validation(ctx, lis, res: RuleResult):
+    """Second accepted scheme of index validation in the TUCAN parser: every index is checked where it is read.
+    -> True (holds; obligations recorded), False (a finding was recorded), None (the scheme is not used)"""
+    from ..concrete import run_outcome
+    from ..origin import OriginTyper, tags
+    ot = OriginTyper(ctx.repo, lis, [])
+    # where index text is converted
+    conv = []          # (method, int(..) call)
+    for m in lis.methods.values():
+        for n in own_walk(m.node):
+            if isinstance(n, ast.Call) and isinstance(n.func, ast.Name) and n.func.id == "int" and n.args and "idx" in tags(ot.ty(m, n.args[0])):
+                conv.append((m, n))
+    if not conv:
+        return None
+    readers = {}
+    for m, call in conv:
+        raises = [r for r in own_walk(m.node) if isinstance(r, ast.Raise)]
+        if not raises:
+            return None          # some index is converted where nothing is checked: not this scheme
+        readers[m.fq] = m
+    guard_fields = set()
+    for m in readers.values():
+        # does it raise exactly when the index (as written, 1-based) exceeds the number of atoms?  The number of atoms is
+        # whatever count-valued expression the test reads (len(..) or a field holding one): stub it with 3
+        call = next(c for mm, c in conv if mm is m)
+        cnt = {}
+        for x in own_walk(m.node):
+            if isinstance(x, ast.Call) and isinstance(x.func, ast.Name) and x.func.id == "len":
+                cnt[norm(x)] = 3
+            if isinstance(x, ast.Attribute) and isinstance(x.value, ast.Name) and x.value.id == "self" and "cnt" in tags(ot.fields.get(x.attr, ot.ty(m, x))):
+                cnt[norm(x)] = 3
+                for t_ in own_walk(m.node):
+                    if isinstance(t_, ast.Compare) and norm(t_.left) == norm(x) and any(isinstance(o, (ast.Is, ast.IsNot)) for o in t_.ops):
+                        guard_fields.add(x.attr)
+        if not cnt:
+            return None
+        try:
+            vals = {r: run_outcome(m.node.body, {}, {**cnt, norm(call): r}) == "raise" for r in (1, 3, 4, 5)}
+        except Exception as ex:
+            raise AnalysisError(f"R-ORDERING: cannot evaluate the index check of {m.qualname} ({ex})")
+        good = (not vals[1]) and (not vals[3]) and vals[4] and vals[5]
+        res.inst(m.fq, "an index is rejected where it is read, exactly when it exceeds the number of atoms", "ok" if good else "fail")
+        if not good:
+            res.fail(Finding("R-ORDERING", m.module.rel, m.qualname, "index check at read time", "the check made where an index is read does not reject exactly the indices beyond the number of atoms", line=m.node.lineno))
+            return False
+    # a check that only runs once a field is set: the field must be set on every way through the formula handlers
+    for F in sorted(guard_fields):
+        setters = [m for m in lis.methods.values() if m.name != "__init__" and any(isinstance(x, ast.Attribute) and isinstance(x.ctx, ast.Store) and isinstance(x.value, ast.Name)
+                                                                                   and x.value.id == "self" and x.attr == F for x in own_walk(m.node))]
+        if not setters:
+            res.inst(lis.fq, f"`self.{F}` is set before indices are read", "fail")
+            res.fail(Finding("R-ORDERING", lis.module.rel, lis.name, f"self.{F}", f"indices are checked only once `self.{F}` is set, and nothing sets it", line=lis.node.lineno))
+            return False
+        for m in setters:
+            cfg = cfg_of(m.node)
+            assigns = [cfg.stmt_node_containing(x) for x in own_walk(m.node) if isinstance(x, ast.Attribute) and isinstance(x.ctx, ast.Store) and isinstance(x.value, ast.Name)
+                       and x.value.id == "self" and x.attr == F]
+            assigns = [a for a in assigns if a is not None]
+            path = cfg.path_avoiding(cfg.ENTRY, cfg.EXIT, assigns)
+            ok = path is None
+            res.inst(m.fq, f"every way through sets `self.{F}`", "ok" if ok else "fail")
+            if not ok:
+                res.fail(Finding("R-ORDERING", m.module.rel, m.qualname, f"self.{F}",
+                                 f"indices are checked only once `self.{F}` is set, and this method can finish without setting it (" + " ; ".join(cfg.describe(x) for x in path[1:-1])[:160]
+                                 + "): for such a string no index is checked at all, a dangling index is accepted or fails with an unrelated error", line=m.node.lineno))
+                return False
+        # the setters run for every sum formula: each formula handler calls one of them unconditionally
+        handlers = [m for m in lis.methods.values() if m.name.startswith("enter") and any(k in m.name.lower() for k in ("carbon", "formula"))]
+        for h in handlers:
+            calls = [x for x in h.node.body if isinstance(x, ast.Expr) and isinstance(x.value, ast.Call) and isinstance(x.value.func, ast.Attribute)
+                     and isinstance(x.value.func.value, ast.Name) and x.value.func.value.id == "self" and x.value.func.attr in {s_.name for s_ in setters}]
+            direct = h in setters
+            if not calls and not direct:
+                raise AnalysisError(f"R-ORDERING: cannot see that {h.qualname} sets `self.{F}`")
+    return True
 
 
 def _check_parser_validation(ctx, res: RuleResult):
@@ -1806,6 +1915,9 @@ def _check_parser_validation(ctx, res: RuleResult):
         good = (not vals[0]) and (not vals[2]) and vals[3] and vals[4]
         validators[name] = (m, good)
     if not validators:
+        alt = _read_time_validation(ctx, lis, res)
+        if alt is not None:
+            return
         res.inst(tg.fq, "an index validator exists", "fail")
         res.fail(Finding("R-ORDERING", tg.module.rel, tg.qualname, "index validation", "the parser has no check that an index refers to an existing atom", line=tg.node.lineno))
         return
